@@ -14,7 +14,7 @@ from ..common import quiet
 
 CELLS = ['x', 'a b', ' lead', 'trail ', '  both  ', 'q"uote', 'com,ma', 'new\nline', 'ünï', '😀', '12', '-3', '1.5', '007',
          'true', '2020-01-02', '', 'tab\t', '\tx', 'a\xa0', 'z']
-HEADERS = ['a', 'b', 'a (1)', 'A', 'col c', 'd,e', 'x"y', 'ü', 'a (2)', 'B', 'id']
+HEADERS = ['a', 'b', 'a (1)', 'A', 'col c', 'd,e', 'x"y', 'ü', 'a (2)', 'B', 'id', 'A (1)', 'A (2)', 'Name', 'name', 'Name (1)', 'NAME']
 WS = [9, 10, 11, 12, 13, 28, 29, 30, 31, 32, 133, 160, 5760, 8192, 8193, 8194, 8195, 8196, 8197, 8198, 8199, 8200, 8201, 8202,
       8232, 8233, 8239, 8287, 12288]
 
@@ -37,6 +37,16 @@ def write_csv(path, headers, rows):
         w.writerow(headers)
         for r in rows:
             w.writerow(r)
+
+
+def parser_rows(path):
+    """the rows tabulator's csv parser (with its sniffed dialect) hands to load's wrappers"""
+    try:
+        import tabulator
+        with tabulator.Stream(path, headers=1) as s:
+            return [[('' if c is None else c) for c in r] for r in s.iter()]
+    except Exception:  # noqa
+        return None
 
 
 def reference(path):
@@ -134,9 +144,15 @@ def file_case(ctx, rng, idx, pending):
             sig = 'cell-text-or-strip'
         else:
             sig = 'cell-text'
+            # tabulator's csv parser drops blanks after a delimiter (skipinitialspace) whatever `strip` says
+            if all(len(a) == len(b) and all(x == y or (isinstance(x, str) and isinstance(y, str) and y.lstrip(' ') == x)
+                                            for x, y in zip(a, b)) for a, b in zip(got, exp_n)):
+                sig = 'cell-text:leading-blanks-dropped-with-strip-off'
         rep.fail(sig, case, {'expected': exp_n[:6], 'got': got[:6]})
     if strategy != 'schema':
-        pending.append((case, {'op': 'wrap', 'rows': ref_rows, 'strip': strip, 'ws': WS,
+        # the model's input is what the (third-party, parameter) parser delivers for this file
+        parsed = parser_rows(path)
+        pending.append((case, {'op': 'wrap', 'rows': parsed if parsed is not None else ref_rows, 'strip': strip, 'ws': WS,
                                **({'limit': limit} if limit is not None else {})}, {'rows': got}))
 
 
@@ -175,6 +191,21 @@ def selection_case(ctx, rng, idx):
                 rep.fail('select:tuple:rows-misaligned', case, {'resource': n, 'got': rows})
 
 
+def probe(finding):
+    if finding['signature'] == 'cell-text:leading-blanks-dropped-with-strip-off':
+        import shutil
+        base = os.path.join(os.path.dirname(os.path.dirname(os.path.dirname(os.path.abspath(__file__)))), 'scratch', 'probe-c13')
+        os.makedirs(base, exist_ok=True)
+        try:
+            write_csv(os.path.join(base, 't.csv'), ['a', 'b'], [['q"uote', '  y  ']])
+            with quiet():
+                res = Flow(DF.load(os.path.join(base, 't.csv'), strip=False)).results(on_error=None)[0][0]
+            return res[0]['b'] != '  y  '
+        finally:
+            shutil.rmtree(base, ignore_errors=True)
+    raise ValueError(finding['signature'])
+
+
 def run(ctx):
     rep = ctx.report
     rep.rule = ('generated CSV files (quotes, delimiters, newlines in cells, unicode, surrounding blanks incl. tabs and NBSP, '
@@ -206,7 +237,7 @@ def run(ctx):
                 o = rep.oracle_failures[before]
                 return {'signature': o['signature'], 'case': o['case'], 'detail': o['detail']}
         return None
-    return ctx.finish(search=search)
+    return ctx.finish(probe=probe, search=search)
 
 
 def replay(payload):
